@@ -68,42 +68,83 @@ class Line:
 
 
 class Path:
+    """One abstract execution state.  ``facts`` is the valuation of the atoms decided on the
+    way here; ``alts`` are further valuations (of merged-away paths) that reached *exactly*
+    the same state -- see Evaluator.merge / PE.focus (exact merging, nothing is invented)."""
+
     __slots__ = (
-        "env", "atoms", "ident", "excl", "bufs", "ind", "heap", "events",
+        "env", "facts", "alts", "since", "bufs", "ind", "heap", "events",
         "ctl", "retv", "frames", "counter", "trace",
     )
 
     def __init__(self):
         self.env: Dict[str, V] = {}
-        self.atoms: Dict[str, bool] = {}
-        self.ident: Dict[str, str] = {}  # var text -> identity constant text
-        self.excl: Dict[str, frozenset] = {}
+        self.facts: Dict[str, Any] = {}  # 'A|key'->bool, 'I|var'->const text, 'X|var'->frozenset
+        self.alts: Tuple[Dict[str, Any], ...] = ()
+        self.since: Dict[str, Any] = {}
         self.bufs: Dict[str, List[Line]] = {"main": []}
         self.ind: Dict[str, int] = {"main": 0}
         self.heap: Dict[str, Dict[str, V]] = {}
         self.events: List[Tuple] = []
         self.ctl: Optional[str] = None  # None | 'return' | 'continue' | 'break' | 'raise'
         self.retv: Optional[V] = None
-        self.frames: List[Dict[str, V]] = []
+        self.frames: List[Dict[str, Any]] = []
         self.counter = 0
         self.trace: List[str] = []
 
     def clone(self) -> "Path":
         p = Path()
         p.env = dict(self.env)
-        p.atoms = dict(self.atoms)
-        p.ident = dict(self.ident)
-        p.excl = dict(self.excl)
+        p.facts = dict(self.facts)
+        p.alts = self.alts
+        p.since = dict(self.since)
         p.bufs = {k: list(v) for k, v in self.bufs.items()}
         p.ind = dict(self.ind)
         p.heap = {k: dict(v) for k, v in self.heap.items()}
         p.events = list(self.events)
         p.ctl = self.ctl
         p.retv = self.retv
-        p.frames = [dict(f) for f in self.frames]
+        p.frames = [{"__env__": dict(f["__env__"]), "__visible__": f["__visible__"]} for f in self.frames]
         p.counter = self.counter
         p.trace = list(self.trace)
         return p
+
+    # ---- facts
+    def set_fact(self, k: str, v: Any) -> None:
+        self.facts[k] = v
+        if self.alts:
+            self.since[k] = v
+
+    def worlds(self) -> List[Dict[str, Any]]:
+        """All valuations that reach this state (primary first)."""
+        out = [self.facts]
+        for a in self.alts:
+            if self.since:
+                w = dict(a)
+                w.update(self.since)
+                out.append(w)
+            else:
+                out.append(a)
+        return out
+
+    @staticmethod
+    def _view(facts: Dict[str, Any], prefix: str) -> Dict[str, Any]:
+        return {k[2:]: v for k, v in facts.items() if k.startswith(prefix)}
+
+    @property
+    def atoms(self) -> Dict[str, bool]:
+        return self._view(self.facts, "A|")
+
+    @property
+    def ident(self) -> Dict[str, str]:
+        return self._view(self.facts, "I|")
+
+    @property
+    def excl(self) -> Dict[str, frozenset]:
+        return self._view(self.facts, "X|")
+
+    def atom_views(self) -> List[Dict[str, bool]]:
+        return [self._view(w, "A|") for w in self.worlds()]
 
     def fresh(self, prefix: str) -> str:
         self.counter += 1
@@ -115,24 +156,35 @@ class Path:
     def text(self, bid: str = "main") -> str:
         return "\n".join(l.show() for l in self.lines(bid))
 
-    def state_key(self, live=None):
-        def facts(d):
-            if live is None:
-                return tuple(sorted(d.items()))
-            return tuple(sorted((k, v) for k, v in d.items() if live(k)))
-
-        return (
+    def state_key(self, with_facts: bool = True):
+        k = (
             tuple(sorted((k, v.key()) for k, v in self.env.items())),
             tuple((k, tuple(l.key() for l in v)) for k, v in sorted(self.bufs.items())),
             tuple(sorted(self.ind.items())),
             tuple(sorted((o, tuple(sorted((a, v.key()) for a, v in d.items()))) for o, d in self.heap.items())),
-            tuple(repr(e) for e in self.events),
+            tuple(_ev_key(e) for e in self.events),
             self.ctl,
             self.retv.key() if self.retv is not None else None,
-            facts(self.atoms),
-            facts(self.ident),
-            tuple(sorted((k, tuple(sorted(v))) for k, v in self.excl.items() if live is None or live(k))),
+            tuple(tuple(sorted((k, v.key()) for k, v in f["__env__"].items())) for f in self.frames),
+            self.counter,
         )
+        if with_facts:
+            k = k + (tuple(sorted((a, repr(b)) for a, b in self.facts.items())),)
+        return k
+
+
+def _ev_key(e):
+    out = []
+    for x in e:
+        if isinstance(x, V):
+            out.append(x.key())
+        elif isinstance(x, (list, tuple)):
+            out.append(tuple(y.key() if isinstance(y, V) else repr(y) for y in x))
+        elif isinstance(x, dict):
+            out.append(tuple(sorted((k, v.key() if isinstance(v, V) else repr(v)) for k, v in x.items())))
+        else:
+            out.append(repr(x))
+    return tuple(out)
 
 
 BUILDER_CLS = f"{M_BUILDER}::CodeBuilder"
@@ -153,7 +205,15 @@ class PE:
         tagger: Optional[Callable] = None,
         generic_elems: int = 1,
         max_paths: int = 20000,
+        assume: Sequence[Tuple[str, bool]] = (),
+        max_steps: int = 400000,
     ):
+        import re as _re
+
+        self.assume = [(_re.compile(rx), val) for rx, val in assume]
+        self.assumed_hits: Dict[str, int] = {}
+        self.max_steps = max_steps
+        self.steps = 0
         self.repo = repo
         self.inline_depth = inline_depth
         self.no_inline = set(no_inline)
@@ -178,7 +238,11 @@ class PE:
         if self.tagger is not None:
             extra = self.tagger(s, node, inherit)
             if extra:
-                s = Sym(name, tags | set(extra), node)
+                extra = set(extra)
+                if "!RESET" in extra:
+                    extra.discard("!RESET")
+                    tags = set()
+                s = Sym(name, tags | extra, node)
         return s
 
     @property
@@ -241,8 +305,10 @@ class PE:
         return self.sym(f"{self.obj_name(recv)}.{attr}")
 
     def obj_name(self, o: Obj) -> str:
-        if o.oid == "B":
-            return "B"
+        import re as _re
+
+        if not _re.fullmatch(r"o\d+", o.oid):
+            return o.oid
         return f"{o.cls.split('::')[-1]}#{o.oid}"
 
     # ================================================================ names
@@ -299,13 +365,58 @@ class PE:
         return self.sym(local, node)
 
     # ================================================================ atoms
+    def assumed(self, key: str) -> Optional[bool]:
+        for rx, val in self.assume:
+            if rx.search(key):
+                self.assumed_hits[rx.pattern] = self.assumed_hits.get(rx.pattern, 0) + 1
+                return val
+        return None
+
+    def focus(self, p: Path, keys: Sequence[str]) -> List[Path]:
+        """Split ``p`` so that every valuation it stands for agrees on ``keys`` (exact un-merging)."""
+        if not p.alts:
+            return [p]
+        mine = tuple(p.facts.get(k, _ABSENT) for k in keys)
+        same: List[Dict[str, Any]] = []
+        groups: Dict[Any, List[Dict[str, Any]]] = {}
+        worlds = p.worlds()[1:]
+        for w in worlds:
+            proj = tuple(w.get(k, _ABSENT) for k in keys)
+            if proj == mine:
+                same.append(w)
+            else:
+                groups.setdefault(proj, []).append(w)
+        if not groups:
+            return [p]
+        out = []
+        for proj, ws in groups.items():
+            q = p.clone()
+            q.facts = dict(ws[0])
+            q.alts = tuple(ws[1:])
+            q.since = {}
+            out.append(q)
+        p.alts = tuple(same)
+        p.since = {}
+        return [p] + out
+
     def atom(self, key: str, p: Path) -> List[Tuple[bool, Path]]:
-        if key in p.atoms:
-            return [(p.atoms[key], p)]
+        out = []
+        for q in self.focus(p, ["A|" + key]):
+            out.extend(self._atom1(key, q))
+        return out
+
+    def _atom1(self, key: str, p: Path) -> List[Tuple[bool, Path]]:
+        fk = "A|" + key
+        if fk in p.facts:
+            return [(p.facts[fk], p)]
+        a = self.assumed(key)
+        if a is not None:
+            p.set_fact(fk, a)
+            return [(a, p)]
         self.nsplit += 1
         a = p.clone()
-        a.atoms[key] = True
-        p.atoms[key] = False
+        a.set_fact(fk, True)
+        p.set_fact(fk, False)
         return [(True, a), (False, p)]
 
     def truth(self, v: V, p: Path) -> List[Tuple[bool, Path]]:
@@ -338,20 +449,24 @@ class PE:
                 return self.atom(f"bool({v.name})", p)
         if isinstance(v, Sym):
             nm = v.name
-            if nm in p.ident:
-                c = p.ident[nm]
-                if c in ("None", "False", "''", "MISSING_FALSEY"):
-                    return [(False, p)]
-            key = f"bool({nm})"
-            if key in p.atoms:
-                return [(p.atoms[key], p)]
-            out = self.atom(key, p)
-            for b, q in out:
-                if b:
-                    # truthy => not None
-                    q.excl[nm] = frozenset(set(q.excl.get(nm, ())) | {"None"})
+            out = []
+            for q in self.focus(p, ["A|bool(%s)" % nm, "I|" + nm, "X|" + nm]):
+                out.extend(self._truth_sym(nm, q))
             return out
         return self.atom(f"bool({show(v)})", p)
+
+    def _truth_sym(self, nm: str, p: Path) -> List[Tuple[bool, Path]]:
+        c = p.facts.get("I|" + nm)
+        if c in ("None", "False", "''"):
+            return [(False, p)]
+        key = f"bool({nm})"
+        if "A|" + key in p.facts:
+            return [(p.facts["A|" + key], p)]
+        out = self._atom1(key, p)
+        for b, q in out:
+            if b:  # truthy => not None
+                q.set_fact("X|" + nm, frozenset(set(q.facts.get("X|" + nm, ())) | {"None"}))
+        return out
 
     def identity(self, l: V, r: V, p: Path) -> List[Tuple[bool, Path]]:
         """``l is r``"""
@@ -372,18 +487,33 @@ class PE:
         if not isinstance(l, Sym) and isinstance(r, Sym):
             l, r = r, l
         var, c = show(l), show(r)
-        if var in p.ident:
-            return [(p.ident[var] == c, p)]
-        if c in p.excl.get(var, ()):
+        out = []
+        for q in self.focus(p, ["I|" + var, "X|" + var, "A|bool(%s)" % var]):
+            out.extend(self._identity1(var, c, q))
+        return out
+
+    def _identity1(self, var: str, c: str, p: Path) -> List[Tuple[bool, Path]]:
+        if "I|" + var in p.facts:
+            return [(p.facts["I|" + var] == c, p)]
+        if c in p.facts.get("X|" + var, ()):
             return [(False, p)]
-        if c == "None" and p.atoms.get(f"bool({var})") is True:
+        if c == "None" and p.facts.get("A|bool(%s)" % var) is True:
+            return [(False, p)]
+        asm = self.assumed(f"{var} is {c}")
+        if asm is True:
+            p.set_fact("I|" + var, c)
+            if c == "None":
+                p.set_fact("A|bool(%s)" % var, False)
+            return [(True, p)]
+        if asm is False:
+            p.set_fact("X|" + var, frozenset(set(p.facts.get("X|" + var, ())) | {c}))
             return [(False, p)]
         self.nsplit += 1
         a = p.clone()
-        a.ident[var] = c
+        a.set_fact("I|" + var, c)
         if c == "None":
-            a.atoms[f"bool({var})"] = False
-        p.excl[var] = frozenset(set(p.excl.get(var, ())) | {c})
+            a.set_fact("A|bool(%s)" % var, False)
+        p.set_fact("X|" + var, frozenset(set(p.facts.get("X|" + var, ())) | {c}))
         return [(True, a), (False, p)]
 
     def equal(self, l: V, r: V, p: Path, node=None) -> List[Tuple[bool, Path, Optional[Tuple[str, V]]]]:
@@ -417,6 +547,14 @@ class PE:
 
     # ================================================================ conditions
     def cond(self, e: ast.AST, p: Path) -> List[Tuple[bool, Path]]:
+        res = self._cond(e, p)
+        if len(res) > 2 and getattr(self, "merge_enabled", False):
+            t = self.merge([q for b, q in res if b], frozenset())
+            f = self.merge([q for b, q in res if not b], frozenset())
+            return [(True, q) for q in t] + [(False, q) for q in f]
+        return res
+
+    def _cond(self, e: ast.AST, p: Path) -> List[Tuple[bool, Path]]:
         if self.cond_oracle is not None:
             r = self.cond_oracle(self, e, p)
             if r is not None:
@@ -745,17 +883,19 @@ class PE:
         # unknown iterable: generic elements
         n = self.generic_elems
         base = show(it)
+        reg = self.__dict__.setdefault("_iter_ids", {})
+        iid = reg.setdefault(base, len(reg) + 1)
         els = []
         for i in range(n):
-            els.append(self.sym(f"elem{i + 1}({base})" if n > 1 else f"elem({base})", node, [it]))
+            s = self.sym(f"elem{i + 1}.{iid}", node, [it])
+            s = Sym(s.name, s.tags, ("elem", i + 1, iid, base))
+            els.append(s)
         return els, True
 
     # ---------------------------------------------------------------- binding
     def bind(self, target: ast.AST, v: V, p: Path) -> None:
         if isinstance(target, ast.Name):
             p.env[target.id] = v
-            p.ident.pop(target.id, None)
-            p.excl.pop(target.id, None)
         elif isinstance(target, (ast.Tuple, ast.List)):
             n = len(target.elts)
             if isinstance(v, (Tup, Lst)) and len(v.items) == n and not getattr(v, "open", False):
@@ -765,7 +905,11 @@ class PE:
                 for i, t in enumerate(target.elts):
                     nm = t.id if isinstance(t, ast.Name) else ast.unparse(t)
                     base = show(v)
-                    self.bind(t, self.sym(f"{nm}<{base}>" if len(base) < 80 else f"{nm}<...>", target, [v]), p)
+                    if isinstance(v, Sym) and isinstance(v.origin, tuple) and v.origin and v.origin[0] == "elem":
+                        label = f"{nm}#{v.origin[1]}" + ("" if v.origin[2] == 1 else f"'{v.origin[2]}")
+                    else:
+                        label = f"{nm}<{base}>" if len(base) < 60 else f"{nm}<{base[:40]}...>"
+                    self.bind(t, self.sym(label, target, [v]), p)
         elif isinstance(target, ast.Attribute):
             recv = self.ev1(target.value, p)
             if isinstance(recv, Obj):
@@ -795,6 +939,7 @@ class PE:
         p.env[name] = v
 
 
+_ABSENT = object()
 _OPS = {ast.Add: "+", ast.Sub: "-", ast.Mult: "*", ast.Div: "/", ast.Mod: "%", ast.BitOr: "|", ast.BitAnd: "&"}
 
 
